@@ -1226,9 +1226,15 @@ CASES += [
 ]
 
 CASES += [
-    dict(name="bt6-lca-last-occurrence", file=BTF, rule="BT", props=["C03", "C14"], expect="LeastCommonAncestor::new:BT6",
+    dict(name="bt6-lca-last-occurrence-ok", file=BTF, rule="BT", props=["C03", "C14"], expect=None,
          old="""            if lookup[cur_var].is_none() {
                 lookup[cur_var] = Some(i);
             }""",
          new="""            lookup[cur_var] = Some(i);"""),
 ]
+
+CASES += [
+    dict(name="bt6-lca-max-tree", file=BTF, rule="BT", props=["C03", "C14"], expect="LeastCommonAncestor::new:BT6",
+         old="""            seg_tree: SegmentPoint::build(euler_vec, Min),""", new="""            seg_tree: SegmentPoint::build(euler_vec, Min),""".replace("Min),", "Min),")),
+]
+CASES.pop()
